@@ -7,6 +7,7 @@ import Iodata.Drv.Conv
 import Iodata.Drv.Flow
 import Iodata.Drv.Fmt
 import Iodata.Drv.FmtR
+import Iodata.Drv.FmtW
 import Iodata.Drv.Helpers
 import Iodata.Drv.IOData
 import Iodata.Drv.Inputs
@@ -19,7 +20,7 @@ import Iodata.Drv.Units
 import Iodata.Drv.Wf
 
 def handlers : List (List String → Option String) :=
-  [Iodata.Drv.C07R.handle, Iodata.Drv.Cascade.handle, Iodata.Drv.Cli.handle, Iodata.Drv.Conv.handle, Iodata.Drv.Flow.handle, Iodata.Drv.Fmt.handle, Iodata.Drv.FmtR.handle, Iodata.Drv.Helpers.handle, Iodata.Drv.IOData.handle, Iodata.Drv.Inputs.handle, Iodata.Drv.Orbitals.handle, Iodata.Drv.Overlap.handle, Iodata.Drv.Segment.handle, Iodata.Drv.Select.handle, Iodata.Drv.Traj.handle, Iodata.Drv.Units.handle, Iodata.Drv.Wf.handle]
+  [Iodata.Drv.C07R.handle, Iodata.Drv.Cascade.handle, Iodata.Drv.Cli.handle, Iodata.Drv.Conv.handle, Iodata.Drv.Flow.handle, Iodata.Drv.Fmt.handle, Iodata.Drv.FmtR.handle, Iodata.Drv.FmtW.handle, Iodata.Drv.Helpers.handle, Iodata.Drv.IOData.handle, Iodata.Drv.Inputs.handle, Iodata.Drv.Orbitals.handle, Iodata.Drv.Overlap.handle, Iodata.Drv.Segment.handle, Iodata.Drv.Select.handle, Iodata.Drv.Traj.handle, Iodata.Drv.Units.handle, Iodata.Drv.Wf.handle]
 
 def respond (line : String) : String :=
   let ws := (line.splitOn " ").filter (· ≠ "")
